@@ -16,10 +16,10 @@ def sources():
     """(directory, seed id, property) of every candidate the sub-agents left under /tmp"""
     out = []
     for d in sorted(glob.glob('/tmp/seed/C??/[AB]')): out.append((d, '%s-%s' % (d.split('/')[3], d.split('/')[4]), d.split('/')[3]))
-    for r, tag in (('/tmp/seed2', '2'), ('/tmp/seed3', '3'), ('/tmp/seed5', '4'), ('/tmp/seed6', '5'), ('/tmp/seed7', '6'), ('/tmp/seed8', '7'), ('/tmp/seed9', '8'), ('/tmp/seed10', '9')):
+    for r, tag in (('/tmp/seed2', '2'), ('/tmp/seed3', '3'), ('/tmp/seed5', '4'), ('/tmp/seed6', '5'), ('/tmp/seed7', '6'), ('/tmp/seed8', '7'), ('/tmp/seed9', '8'), ('/tmp/seed10', '9'), ('/tmp/seed11', '10')):
         for d in sorted(glob.glob(r + '/C??/[AB]')):
             prop = d.split('/')[3]
-            out.append((d, '%s-%s%s' % (prop, '4' if (prop == 'C18' and tag == '5') else '5' if (prop == 'C18' and tag == '6') else '6' if (prop == 'C18' and tag == '7') else '7' if (prop == 'C18' and tag == '8') else '8' if (prop == 'C18' and tag == '9') else tag, d.split('/')[4]), prop))
+            out.append((d, '%s-%s%s' % (prop, '4' if (prop == 'C18' and tag == '5') else '5' if (prop == 'C18' and tag == '6') else '6' if (prop == 'C18' and tag == '7') else '7' if (prop == 'C18' and tag == '8') else '8' if (prop == 'C18' and tag == '9') else '9' if (prop == 'C18' and tag == '10') else tag, d.split('/')[4]), prop))
     for x, tag in (('a', ''), ('b', '2'), ('c', '3')):
         for d in sorted(glob.glob('/tmp/seed4/C18%s/[AB]' % x)): out.append((d, 'C18-%s%s' % (tag, d.split('/')[4]), 'C18'))
     return out
